@@ -302,6 +302,37 @@ def run(ctx):
             if im.f_pow(m, a, e) != mv:
                 ctx.broken.append("correspondence GF(2^%d) pow(%d,%d)" % (m, a, e))
 
+    # exponents of 2^16 and more, interleaved with small ones on the same field object (both orders): a**e = a**(e mod (2^m - 1)) for a != 0
+    for m in [mm for mm in ms if mm <= 16][: (6 if quick else 16)] + ([16] if 16 in ms else []):
+        n = 1 << m
+        hist = []
+        for _ in range(12 if quick else 60):
+            a = rng.randrange(1, n)
+            r_ = rng.randrange(0, 9)
+            big_e = rng.choice([65536, 65537, 65538, 65539, 65543, 131070, 131072 + r_, (n - 1) * 4096 + r_, 2 * (n - 1)])
+            b_ = a ^ 1 if (a ^ 1) and (a ^ 1) < n else a
+            seq = [(a, big_e), (b_, r_), (a, big_e), (b_, big_e & 0xFFFF), (a, r_)]
+            rng.shuffle(seq)
+            hist += seq
+        for a, e in hist:
+            got = im.f_pow(m, a, e)
+            red = e % (n - 1) if n > 2 else 0
+            want = im.f_pow(m, a, red) if e >= n else None
+            ctx.count("field-pow")
+            if want is not None and got != want:
+                # settle which of the two is wrong with the e-fold product computed by repeated squaring in the harness
+                acc, base, ee = 1, a, e
+                one = 1
+                def mul(x, y, m=m):          # noqa: E306
+                    return (im.field(m)(x) * im.field(m)(y)).value
+                while ee:
+                    if ee & 1:
+                        acc = mul(acc, base)
+                    base = mul(base, base)
+                    ee >>= 1
+                ctx.violation("C18/FiniteBifieldElement.pow/large-exponent", "in GF(2^%d), after a history of other powers on the same field, %d ** %d returns %d; the e-fold product is %d (and %d ** %d = %d)" % (
+                    m, a, e, got, acc, a, red, want), {"m": m, "a": a, "e": e})
+                break
     ctx.log('pow done')
     # ------------------------------------------------------------------ minimal polynomials
     mp_full = [m for m in ms if m <= (6 if quick else 8)]
